@@ -26,7 +26,10 @@ RULE_TPL = ("(1) every sequence of length <= N over the 22-token alphabet %r (N=
         "construction, non-trivial = non-empty); (2) every .py file under the repository (quick: <= 8 KB; thorough: all; "
         "the scanner is quadratic); (3) seeded mutations of those files (delete/duplicate/swap a token, unbalance "
         "a quote or bracket, splice lines); (4) the exhaustive product of statement templates header x gap x body x tail "
-        "(%d strings: same-line bodies, odd spacing, mixed quote styles, decorators, continuations)")
+        "(%d strings: same-line bodies, odd spacing, mixed quote styles, decorators, continuations); (5) every sequence "
+        "of length 5..6 (thorough: ..7) over the 8 tokens that open, close and join string literals; (6) seeded expression "
+        "statements built from string literals and operators (concatenation, %%-formatting, conditional expressions, implicit "
+        "concatenation, calls) at module level, in a def, in a class, after a docstring")
 REQUIRED_MONITORS = ("cst_parse.post", "cst_scanner.post")
 ASSUMPTIONS = ["line numbers are 1-based and a node's line_no_end is the line on which the next node starts"]
 CUR = {}
@@ -59,7 +62,64 @@ def streams(ctx):
     total = sum(len(ALPHABET) ** k for k in range(0, n_max(ctx) + 1))
     return [("alphabet", (total + BLOCK - 1) // BLOCK), ("files", len(repo_files(ctx))),
             ("mutants", ctx.scale(300, 6000)), ("hand", len(HAND)), ("templates", (N_TEMPLATES + BLOCK - 1) // BLOCK),
-            ("exotic", ctx.scale(30, 400))]
+            ("exotic", ctx.scale(30, 400)), ("quotes", (quotes_total(ctx) + BLOCK - 1) // BLOCK),
+            ("strexpr", ctx.scale(20, 300))]
+
+
+# (5) a second, deeper exhaustive sweep over the few tokens that open and close string literals: what the scanner decides
+# about a chunk that starts and ends with quotes needs longer sequences than the wide alphabet affords
+QUOTES = ('"""', "'''", "@", "\n", "x", " ", "\\", '"')
+
+
+def quotes_n(ctx):
+    return ctx.scale(6, 7)
+
+
+def quotes_total(ctx):
+    return sum(len(QUOTES) ** k for k in range(5, quotes_n(ctx) + 1))  # lengths below 5 are inside the wide alphabet's sweep
+
+
+def decode_quotes(i):
+    n, k = len(QUOTES), 5
+    while i >= n ** k:
+        i -= n ** k
+        k += 1
+    seq = []
+    for _ in range(k):
+        seq.append(QUOTES[i % n])
+        i //= n
+    return "".join(reversed(seq))
+
+
+# (6) seeded expression statements built from string literals: what sits where a docstring would, but is not one
+STR_ATOMS = ('"""a"""', "'''b'''", '"""\nUsage of foo\n"""', "'''%s'''", '"c"', "'d'", 'r"""e\\"""', 'b"""f"""', 'f"""{x}"""',
+             '""""""', "''''''", '"""it\'s"""', "'''say \"hi\"'''", '"""a\\\\"""', "x", "1", "(1, 2)")
+STR_OPS = (" + ", " % ", " * ", " if verbose else ", " or ", " and ", " == ", " in ", ", ", " ", "@", " \\\n    + ", ".join(", "[0] + ",
+           " if x else ''' ''' if y else ", " is not ")
+
+
+def strexpr(r):
+    n = r.randint(2, 4)
+    parts = [r.choice(STR_ATOMS[:14])]
+    for _ in range(n - 1):
+        op = r.choice(STR_OPS)
+        parts += [op, r.choice(STR_ATOMS)]
+        if op == ".join(":
+            parts.append(")")
+    expr = "".join(parts)
+    if r.random() < 0.15:
+        expr = "(" + expr + ")"
+    where = r.choice(("top", "top", "def", "class", "after-doc", "nested"))
+    tail = r.choice(("\n", "", "\nx = 1\n", "  # c\n", "\n\n"))
+    if where == "top":
+        return expr + tail
+    if where == "def":
+        return "def f(x, verbose=False):\n    " + expr + tail
+    if where == "class":
+        return "class C(object):\n    " + expr + tail
+    if where == "after-doc":
+        return 'def f(x):\n    """doc"""\n    ' + expr + tail
+    return "class C:\n    def m(self):\n        " + expr + tail
 
 
 # seeded strings over characters that end or continue lines in unusual ways (CR, CRLF, form feed, vertical tab, NUL,
@@ -244,6 +304,21 @@ def run_case(ctx, P, stream, idx):
                 seen.add(last)
                 run_one(P, last)
         P.bulk(len(seen), len(seen), klass="exotic", sample={"exotic_string": last})  # distinct within the block
+    elif stream == "quotes":
+        total = quotes_total(ctx)
+        lo, hi = idx * BLOCK, min(total, (idx + 1) * BLOCK)
+        for i in range(lo, hi):
+            run_one(P, decode_quotes(i))
+        P.bulk(hi - lo, hi - lo, klass="quotes", sample={"quotes_string": decode_quotes(hi - 1)})
+    elif stream == "strexpr":
+        r = ctx.rng(stream, idx)
+        last, seen = "", set()
+        for _ in range(400):
+            last = strexpr(r)
+            if last not in seen:
+                seen.add(last)
+                run_one(P, last)
+        P.bulk(len(seen), len(seen), klass="strexpr", sample={"string_expression_statement": last})
     elif stream == "templates":
         lo, hi = idx * BLOCK, min(N_TEMPLATES, (idx + 1) * BLOCK)
         for i in range(lo, hi):
